@@ -43,21 +43,35 @@ func NewRounds(label, dir string, seed int, alpha []byte, lmax int) *Rounds {
 	return r
 }
 
-// Txn describes one child transaction of a round, chosen symbolically.
-type Txn struct {
+// Op is one operation inside a child transaction.
+type Op struct {
 	Kind  int // 0 insert, 1 delete
 	Path  []byte
 	Value []byte
+}
+
+// Txn describes one child transaction of a round, chosen symbolically.
+type Txn struct {
+	Ops   []Op
 	Merge bool
 }
 
 // ChooseTxns picks ntx transactions (each one operation) for a round.
 func (r *Rounds) ChooseTxns(name string, ntx int) []Txn {
 	var ts []Txn
+	kinds := vp.Param("txkinds", 2) // 1: inserts only, 2: inserts and deletes
 	for i := 0; i < ntx; i++ {
-		t := Txn{Kind: vp.Choose(name+".op", 2), Path: GenPath(name+".p", r.Alpha, r.Lmax)}
-		if t.Kind == 0 {
-			t.Value = GenValue(name+".v", 1)
+		nops := 1
+		if i == ntx-1 {
+			nops = vp.Param("lasttxops", 1) // the last transaction may hold several operations
+		}
+		t := Txn{}
+		for j := 0; j < nops; j++ {
+			o := Op{Kind: vp.Choose(name+".op", kinds), Path: GenPath(name+".p", r.Alpha, r.Lmax)}
+			if o.Kind == 0 {
+				o.Value = GenValue(name+".v", 1)
+			}
+			t.Ops = append(t.Ops, o)
 		}
 		t.Merge = true
 		if vp.Param("always_merge", 0) == 0 {
@@ -80,13 +94,15 @@ func (r *Rounds) Execute(version int64, txns []Txn) (*util.MerklePatriciaTrie, *
 		cref := ref.Clone()
 		var err error
 		if vp.NoPanic(r.Label+".nopanic", func() {
-			if tx.Kind == 0 {
-				_, err = c.Insert(util.Path(Cp(tx.Path)), Val(tx.Value))
-				cref.Put(tx.Path, tx.Value)
-			} else {
-				_, err = c.Delete(util.Path(Cp(tx.Path)))
-				if err == nil {
-					cref.Del(tx.Path)
+			for _, o := range tx.Ops {
+				if o.Kind == 0 {
+					_, err = c.Insert(util.Path(Cp(o.Path)), Val(o.Value))
+					cref.Put(o.Path, o.Value)
+				} else {
+					_, err = c.Delete(util.Path(Cp(o.Path)))
+					if err == nil {
+						cref.Del(o.Path)
+					}
 				}
 			}
 		}) {
